@@ -1,6 +1,7 @@
 package main
 
 import (
+	"sort"
 	"fmt"
 	"go/constant"
 	"go/token"
@@ -159,6 +160,9 @@ func pathOfD(v ssa.Value, d int) string {
 		return pathOfD(x.X, d+1) + "." + fieldName(x.X.Type(), x.Field)
 	case *ssa.UnOp:
 		if x.Op == token.MUL {
+			if t := aliasTarget(x.X); t != nil {
+				return pathOfD(t, d+1)
+			}
 			return pathOfD(x.X, d+1)
 		}
 		if x.Op == token.ARROW {
@@ -744,4 +748,340 @@ func earlyExits(h *ssa.BasicBlock) [][2]*ssa.BasicBlock {
 		}
 	}
 	return out
+}
+
+// ---------- local aliases of reference-typed fields ----------
+
+// aliasTarget: addr is the cell of a local variable (possibly captured by a closure) of reference
+// type that is assigned exactly once, from a load of a struct field (mm := a.metricMap).  The
+// variable then names the same object as that field load; the stored value is returned so that
+// paths are printed (and compared) through the alias.  nil otherwise.
+func aliasTarget(addr ssa.Value) ssa.Value {
+	var cell *ssa.Alloc
+	var owner *ssa.Function
+	name := ""
+	switch a := addr.(type) {
+	case *ssa.Alloc:
+		cell, owner = a, a.Parent()
+	case *ssa.FreeVar:
+		fn := a.Parent()
+		for depth := 0; fn != nil && fn.Parent() != nil && depth < 4; depth++ {
+			idx := -1
+			for i, f := range fn.FreeVars {
+				if f.Name() == a.Name() {
+					idx = i
+				}
+			}
+			if idx < 0 {
+				return nil
+			}
+			var b ssa.Value
+			for _, g := range WithAnon(fn.Parent()) {
+				eachInstr(g, func(in ssa.Instruction) {
+					if mc, ok := in.(*ssa.MakeClosure); ok && mc.Fn == ssa.Value(fn) && idx < len(mc.Bindings) {
+						b = mc.Bindings[idx]
+					}
+				})
+			}
+			if al, ok := b.(*ssa.Alloc); ok {
+				cell, owner = al, al.Parent()
+				break
+			}
+			if _, ok := b.(*ssa.FreeVar); !ok {
+				return nil
+			}
+			fn = fn.Parent()
+		}
+	}
+	if cell == nil {
+		return nil
+	}
+	name = cell.Comment
+	switch derefType(cell.Type()).Underlying().(type) {
+	case *types.Pointer, *types.Map, *types.Chan, *types.Slice, *types.Interface, *types.Signature:
+	default:
+		return nil
+	}
+	var val ssa.Value
+	n := 0
+	for _, ref := range referrers(cell) {
+		if st, ok := ref.(*ssa.Store); ok && st.Addr == ssa.Value(cell) {
+			n++
+			val = st.Val
+		}
+	}
+	if n != 1 {
+		return nil
+	}
+	// no assignment through a closure
+	for _, f := range WithAnon(owner)[1:] {
+		bad := false
+		eachInstr(f, func(in ssa.Instruction) {
+			if st, ok := in.(*ssa.Store); ok {
+				if fv, ok := st.Addr.(*ssa.FreeVar); ok && fv.Name() == name {
+					bad = true
+				}
+			}
+		})
+		if bad {
+			return nil
+		}
+	}
+	if ld, ok := val.(*ssa.UnOp); ok && ld.Op == token.MUL {
+		if _, isFA := ld.X.(*ssa.FieldAddr); isFA {
+			return val
+		}
+	}
+	return nil
+}
+
+// ---------- canonical symbolic rendering with call-through ----------
+
+// renderEnv maps the parameters / free variables of a callee to the rendering of the actual
+// arguments / captured variables; root is the function whose parameters are written p0, p1, ...
+type renderEnv struct {
+	root   *ssa.Function
+	params map[*ssa.Parameter]string
+	free   map[*ssa.FreeVar]string
+}
+
+// symRender prints v as an expression over the root function's parameters (p0, p1, ...), named
+// locals / captured variables and fields.  Calls of module functions or local closures whose body
+// is a single return expression are rendered as that expression with the arguments substituted,
+// so "helper(x)" and the helper's body written in place render identically; local aliases of
+// reference-typed fields are resolved.  Used to compare "which object is this" across refactorings.
+func symRender(v ssa.Value, env *renderEnv, d int) string {
+	if d > 14 {
+		return "…"
+	}
+	rec := func(x ssa.Value) string { return symRender(x, env, d+1) }
+	switch x := v.(type) {
+	case nil:
+		return "<nil>"
+	case *ssa.Parameter:
+		if s, ok := env.params[x]; ok {
+			return s
+		}
+		if x.Parent() == env.root {
+			for i, p := range env.root.Params {
+				if p == x {
+					return fmt.Sprintf("p%d", i)
+				}
+			}
+		}
+		return x.Name()
+	case *ssa.FreeVar:
+		if s, ok := env.free[x]; ok {
+			return s
+		}
+		return x.Name()
+	case *ssa.Alloc:
+		if x.Comment != "" && x.Comment != "complit" {
+			return x.Comment
+		}
+		return "alloc"
+	case *ssa.UnOp:
+		if x.Op == token.MUL {
+			if t := aliasTarget(x.X); t != nil {
+				return rec(t)
+			}
+			// a parameter spilled to the stack
+			if al, ok := x.X.(*ssa.Alloc); ok {
+				var only ssa.Value
+				n := 0
+				for _, ref := range referrers(al) {
+					if st, ok := ref.(*ssa.Store); ok && st.Addr == ssa.Value(al) {
+						n++
+						only = st.Val
+					}
+				}
+				if n == 1 {
+					if _, isP := only.(*ssa.Parameter); isP {
+						return rec(only)
+					}
+				}
+			}
+			return rec(x.X)
+		}
+		return x.Op.String() + rec(x.X)
+	case *ssa.FieldAddr:
+		return rec(x.X) + "." + fieldName(x.X.Type(), x.Field)
+	case *ssa.Field:
+		return rec(x.X) + "." + fieldName(x.X.Type(), x.Field)
+	case *ssa.IndexAddr:
+		return rec(x.X) + "[" + rec(x.Index) + "]"
+	case *ssa.Index:
+		return rec(x.X) + "[" + rec(x.Index) + "]"
+	case *ssa.Lookup:
+		return rec(x.X) + "[" + rec(x.Index) + "]"
+	case *ssa.Extract:
+		if lk, ok := x.Tuple.(*ssa.Lookup); ok && x.Index == 0 {
+			return rec(lk)
+		}
+		return rec(x.Tuple) + "#" + fmt.Sprint(x.Index)
+	case *ssa.ChangeType:
+		return rec(x.X)
+	case *ssa.MakeInterface:
+		return rec(x.X)
+	case *ssa.ChangeInterface:
+		return rec(x.X)
+	case *ssa.Convert:
+		return "conv(" + rec(x.X) + ")"
+	case *ssa.Const:
+		if x.Value == nil {
+			return "nil"
+		}
+		return x.Value.ExactString()
+	case *ssa.BinOp:
+		return "(" + rec(x.X) + x.Op.String() + rec(x.Y) + ")"
+	case *ssa.Phi:
+		seen := map[string]bool{}
+		var parts []string
+		for _, e := range x.Edges {
+			s := rec(e)
+			if !seen[s] {
+				seen[s] = true
+				parts = append(parts, s)
+			}
+		}
+		sort.Strings(parts)
+		if len(parts) == 1 {
+			return parts[0]
+		}
+		return "phi(" + strings.Join(parts, "|") + ")"
+	case *ssa.Call:
+		callee, bindings := localCallee(x)
+		var args []string
+		for _, a := range x.Call.Args {
+			args = append(args, rec(a))
+		}
+		if callee != nil && len(callee.Blocks) == 1 && !isBaselineFunc(callee) {
+			if ret, ok := callee.Blocks[0].Instrs[len(callee.Blocks[0].Instrs)-1].(*ssa.Return); ok && len(ret.Results) == 1 && pureBlock(callee.Blocks[0]) {
+				env2 := &renderEnv{root: env.root, params: map[*ssa.Parameter]string{}, free: map[*ssa.FreeVar]string{}}
+				for i, p := range callee.Params {
+					if i < len(args) {
+						env2.params[p] = args[i]
+					}
+				}
+				for i, fv := range callee.FreeVars {
+					if i < len(bindings) {
+						env2.free[fv] = rec(bindings[i])
+					}
+				}
+				return symRender(ret.Results[0], env2, d+1)
+			}
+		}
+		return strings.ReplaceAll(calleeName(x), Mod+"/", "") + "(" + strings.Join(args, ",") + ")"
+	}
+	return pathOf(v)
+}
+
+// localCallee: the module function or function literal called by x (directly, through a closure
+// value, or through a local variable that is assigned that closure exactly once).
+func localCallee(x *ssa.Call) (*ssa.Function, []ssa.Value) {
+	if x.Call.IsInvoke() {
+		return nil, nil
+	}
+	var resolve func(v ssa.Value, d int) (*ssa.Function, []ssa.Value)
+	resolve = func(v ssa.Value, d int) (*ssa.Function, []ssa.Value) {
+		if d > 4 {
+			return nil, nil
+		}
+		switch f := v.(type) {
+		case *ssa.Function:
+			if IsModule(f) && f.Blocks != nil {
+				return f, nil
+			}
+		case *ssa.MakeClosure:
+			if fn, ok := f.Fn.(*ssa.Function); ok {
+				return fn, f.Bindings
+			}
+		case *ssa.UnOp:
+			if f.Op != token.MUL {
+				return nil, nil
+			}
+			cell := cellOf(f.X)
+			if cell == nil {
+				return nil, nil
+			}
+			var val ssa.Value
+			n := 0
+			for _, ref := range referrers(cell) {
+				if st, ok := ref.(*ssa.Store); ok && st.Addr == ssa.Value(cell) {
+					n++
+					val = st.Val
+				}
+			}
+			if n == 1 {
+				return resolve(val, d+1)
+			}
+		}
+		return nil, nil
+	}
+	return resolve(x.Call.Value, 0)
+}
+
+// cellOf: the Alloc behind a local variable address or a captured variable.
+func cellOf(addr ssa.Value) *ssa.Alloc {
+	switch a := addr.(type) {
+	case *ssa.Alloc:
+		return a
+	case *ssa.FreeVar:
+		fn := a.Parent()
+		for depth := 0; fn != nil && fn.Parent() != nil && depth < 4; depth++ {
+			idx := -1
+			for i, f := range fn.FreeVars {
+				if f.Name() == a.Name() {
+					idx = i
+				}
+			}
+			if idx < 0 {
+				return nil
+			}
+			var b ssa.Value
+			for _, g := range WithAnon(fn.Parent()) {
+				eachInstr(g, func(in ssa.Instruction) {
+					if mc, ok := in.(*ssa.MakeClosure); ok && mc.Fn == ssa.Value(fn) && idx < len(mc.Bindings) {
+						b = mc.Bindings[idx]
+					}
+				})
+			}
+			if al, ok := b.(*ssa.Alloc); ok {
+				return al
+			}
+			if _, ok := b.(*ssa.FreeVar); !ok {
+				return nil
+			}
+			fn = fn.Parent()
+		}
+	}
+	return nil
+}
+
+// pureBlock: the block has no stores, sends, go/defer or map updates (an expression body).
+func pureBlock(b *ssa.BasicBlock) bool {
+	for _, in := range b.Instrs {
+		switch in.(type) {
+		case *ssa.Store, *ssa.MapUpdate, *ssa.Send, *ssa.Go, *ssa.Defer, *ssa.Panic:
+			return false
+		}
+	}
+	return true
+}
+
+var baselineSet map[string]bool
+
+// isBaselineFunc: fn is a declared function that exists on the pinned tree (an anchor the rules
+// may name); function literals and helpers introduced later are not.
+func isBaselineFunc(fn *ssa.Function) bool {
+	if fn.Parent() != nil {
+		return false
+	}
+	if baselineSet == nil {
+		baselineSet = baselineFuncs()
+	}
+	if obj, ok := fn.Object().(*types.Func); ok {
+		return baselineSet[obj.FullName()]
+	}
+	return true
 }
